@@ -61,10 +61,11 @@ Lemma start_contents_preserved h0 start h d :
   In (Some d) start -> (forall l, SR h0 start l -> hget h l = hget h0 l) -> content1 h d = content1 h0 d.
 Proof. intros. now apply (content1_agree h0 start). Qed.
 
-(** an uninitialised programme first stores what the initialisation operator returned and then runs the loop on it *)
-Theorem evolve_initialises ops initres nrep ngen li st :
+(** an uninitialised programme first stores what the initialisation operator returned and then runs the loop on it —
+    whether the operator declares [miscout] as required ([strict]) or not *)
+Theorem evolve_initialises ops strict initres nrep ngen li st :
   is_initialized st = false -> length initres = 5 ->
-  evolve ops false initres nrep ngen li st =
+  evolve ops strict initres nrep ngen li st =
     (let st1 := mkSt (p_heap st) (p_stash st) initres (p_work st) (p_t st) (p_tmax st) (p_rep st) (p_mcfg st) (p_misc st) in
      let '(st', evs, ok) := iter (Z.to_nat nrep) (replicate ops ngen li) st1 in
      (st', mkEv T_INIT 0 0 0 [] [] [] [] 0 [] (p_heap st) (p_heap st) :: evs, ok)).
@@ -73,12 +74,14 @@ Proof.
   destruct (iter _ _ _) as [[st' evs] ok]. reflexivity.
 Qed.
 
-(** ... unless the operator follows the abstract signature (required [miscout]): evolve fails before any call *)
-Theorem init_strict_refuted :
+(** the call before commit b17284d4 (no [miscout] argument): with an operator following the abstract signature evolve
+    failed before anything was evaluated *)
+Theorem init_without_miscout_refuted :
   exists (ops : opset) (st : pstate) (initres : list (option loc)),
     is_initialized st = false /\ length initres = 5 /\
     forallb (fun o : option loc => match o with Some _ => true | None => false end) initres = true /\
-    evolve ops true initres 1 1 true st = (st, [], false).
+    evolve_old ops true initres 1 1 true st = (st, [], false) /\
+    snd (evolve ops true initres 1 1 true st) = true.
 Proof.
   exists (interp (mkProgs [] [] [] [] [] [] [] [] [])),
          (init_state [[1%Z]] [[(0%Z, 0)]; []; []; []; []] [None; None; None; None; None] 1 0),
